@@ -243,6 +243,7 @@ func genPageConsts(repo string) (string, error) {
 	// predefinedSizes
 	var sizes []string
 	found := false
+	swappedDecl := false
 	for _, fn := range p.sortedFiles() {
 		for _, d := range p.files[fn].Decls {
 			gd, ok := d.(*ast.GenDecl)
@@ -265,7 +266,13 @@ func genPageConsts(repo string) (string, error) {
 				}
 				st, ok := mt.Value.(*ast.StructType)
 				if !ok {
-					continue
+					// a named struct type of the package
+					if id, isID := mt.Value.(*ast.Ident); isID {
+						st = structTypeOf(p, id.Name)
+					}
+					if st == nil {
+						continue
+					}
 				}
 				var dimNames []string
 				for _, f := range st.Fields.List {
@@ -279,6 +286,14 @@ func genPageConsts(repo string) (string, error) {
 				}
 				if len(dimNames) != 2 {
 					continue
+				}
+				// which of the two is the width: by name when the names say so (a struct may declare the height first),
+				// otherwise the first one
+				lw := func(n string) bool { return strings.Contains(strings.ToLower(n), "wid") }
+				lh := func(n string) bool { return strings.Contains(strings.ToLower(n), "hei") }
+				if lh(dimNames[0]) && lw(dimNames[1]) && !lw(dimNames[0]) && !lh(dimNames[1]) {
+					dimNames[0], dimNames[1] = dimNames[1], dimNames[0]
+					swappedDecl = true
 				}
 				if found {
 					return "", fmt.Errorf("two tables of page sizes")
@@ -304,6 +319,9 @@ func genPageConsts(repo string) (string, error) {
 					dims := make([]string, 2)
 					for k, e := range vl.Elts {
 						pos := k
+						if swappedDecl && k < 2 {
+							pos = 1 - k // unkeyed values follow the order of declaration
+						}
 						if kv2, ok := e.(*ast.KeyValueExpr); ok {
 							e = kv2.Value
 							pos = -1
@@ -412,6 +430,8 @@ func genPageConsts(repo string) (string, error) {
 			} else if id, ok := kv.Value.(*ast.Ident); ok {
 				if v, ok := consts[id.Name]; ok {
 					defs[k] = "\x00" + v
+				} else if l, ok := numOf(id, pkgNumConsts); ok {
+					defs[k] = l // a named numeric constant
 				}
 			}
 		}
@@ -458,4 +478,25 @@ func genPageConsts(repo string) (string, error) {
 		fmt.Fprintf(&b, "Definition default_%s : string := %s.\n", k, coqString(s))
 	}
 	return b.String(), nil
+}
+
+// structTypeOf: the struct type declared under this name in the package (nil if there is none)
+func structTypeOf(p *pkgSrc, name string) *ast.StructType {
+	for _, fn := range p.sortedFiles() {
+		for _, d := range p.files[fn].Decls {
+			gd, ok := d.(*ast.GenDecl)
+			if !ok || gd.Tok != token.TYPE {
+				continue
+			}
+			for _, sp := range gd.Specs {
+				ts := sp.(*ast.TypeSpec)
+				if ts.Name.Name == name {
+					if st, ok := ts.Type.(*ast.StructType); ok {
+						return st
+					}
+				}
+			}
+		}
+	}
+	return nil
 }
